@@ -3513,8 +3513,11 @@ class SchemaValidator:
                                 )
                             else:
                                 errors = _explore_recursive(
-                                    utils.action_ref_from_dependency_ref(
-                                        dependency, operand
+                                    # _action_checkpoint_refs is keyed by id-based references
+                                    self._normalize_ref(
+                                        utils.action_ref_from_dependency_ref(
+                                            dependency, operand
+                                        )
                                     ),
                                     visited,
                                     dependency_path.copy(),
